@@ -119,3 +119,31 @@ def ingestion_wrapper_direct(prog, w):
     rows = table(prog, cl)
     good = len(rows) == 1 and not rows[0][2] and P.call(TARGET, P.anything)(rows[0][1])
     return good, 'closure rows: %s' % [(show(r[1]), [show(c) if c[0] not in ('is', 'switch') else c for c in r[2]]) for r in rows]
+
+
+def walk_exits(ctx, rule, prog, k, outer, label):
+    """every way out of the chain walk is either exhaustion of the chain, the confirmation cut, or an error
+    return: a `break` under any other test (an instruction budget, a height, a flag) makes the answer name a
+    block below the tip the other endpoints serve (seeded change C02-9 put one *after* the apply call, where
+    the per-block admission condition does not see it)"""
+    from sa.expr import switch_info
+    g = cfg(k)
+    body = g.loop_blocks(outer)
+    hc = cond_exprs(prog, k, outer, hidden=False)
+    cutlike = lambda c: any(isinstance(x, tuple) and ((x[0] == 'call' and x[1].endswith('get_stability_count')) or (x[0] in ('param', 'upvar', 'var') and 'min_confirmations' in str(x))) for x in walk(c))
+    bad = []
+    n = 0
+    for a in sorted(body):
+        if k.blocks[a].get('cleanup'):
+            continue
+        for b in g.succ[a]:
+            if b in body or k.blocks[b].get('cleanup') or k.blocks[b]['term']['k'] in ('unreachable',):
+                continue
+            n += 1
+            lits = [c for c in cond_exprs(prog, k, b, hidden=False) if c not in hc]
+            extra = [c for c in lits if not structural(c) and not cutlike(c)]
+            if extra:
+                bad.append((a, [show(c)[:100] for c in extra]))
+    ctx.check(n >= 1 and not bad, rule, 'walk-exits:' + label, k.where(bad[0][0]) if bad else k,
+              'the chain walk is left only when the chain is exhausted, at the confirmation cut, or by an error return (%d exit edge(s))' % n,
+              'the chain walk can also stop under %s: the answer then names a block below the tip' % (bad[0][1] if bad else 'no exit found'))
